@@ -21,7 +21,8 @@ RULE = ("per-run seed -> knobs + a history of 2-6 writer transactions (merges no
         "(ordered list, unordered list, count, best); collapse with limit 1-2; filter and mask given as query, Results and id set "
         "(incl. filtered_count); search_page over several page sizes; len(results) under limits. Order and group keys come from the reference model; filter/mask/paging are compared with the "
         "unfiltered ranking of the same simulated state. Non-trivial = >=2 segments or deletions, and >=1 query with "
-        ">=2 matches; distinct = distinct event-log SHA-256 x queries.")
+        ">=2 matches; distinct = distinct event-log SHA-256 x queries."
+        ' Filter and mask together, caller objects unchanged and reusable; limited collapsed search = head of the unlimited one.')
 ASSUMPTIONS = ["the statement does not fix where documents WITHOUT a value for a sort key go, or how their group is named (the shipped paths disagree: see DESIGN section 7 C14): the order clause is evaluated on the results that have a value for every key, groups are compared as sets of documents over documents that have a value, and the placement/name of the others is recorded, not judged",
                "ties in the sort keys must come in ascending document order",
                "analysis is trusted; sort keys of text fields compare by their UTF-8 term bytes"]
